@@ -28,7 +28,8 @@ CHECKS = {
              "correspondence of the metric functions on the exact lattice; the range claim itself is searched on the "
              "real evaluate() of all 13 task modules with generators biased to degenerate shapes.",
         note="Range theorems exist for every task family (Props/C01_<Task>.lean), incl. the entropy-based scores over the "
-             "reals (Props/C01_Entropy.lean: Shannon entropy in [0, log n], information gain in [0,1], 0 <= MI <= min(H,H'), "
+             "reals (Props/C01_Entropy.lean: Shannon entropy in [0, log n], information gain in [0,1] and a number (not nan) "
+             "whenever the estimated beats are strictly increasing (information_gain_finite_of_increasing), 0 <= MI <= min(H,H'), "
              "NMI, NCE over/under/F and V-measure scores in [0,1], AMI <= 1 via the hypergeometric expectation and "
              "Vandermonde; the loop's range is the whole support, weights summing to 1: hyp_weights_sum_one, "
              "emi_hypergeometric_full_support); binary64 rounding effects stay with correspondence and the oracle. Known findings: Cemgil > 1, standard_FPR precision > 1, pairwise/Rand 0/0, information gain nan for coincident "
